@@ -4,6 +4,7 @@ from fractions import Fraction
 from common import *
 from absint import lower_driver, Unsupported
 from tensoralg import *
+from tensoralg import Specialiser
 import poly as P
 
 RULE = ("Poly-domain abstract interpretation of the -O2 IR of closed-form tensor<N>/st2tost2<N>/t2tot2<N> operations "
@@ -21,6 +22,9 @@ def run(tier):
     drv = os.path.join(VERIF, "drivers", "c02_tensor.cxx")
     for opt in ["-O2"] + (["-O1"] if tier == "thorough" else []):
         P.reset_registry()
+        spz = Specialiser()
+        syms = spz.syms
+        sdesc = ""
         mod = lower_driver(drv, os.path.join(OUT, "C02"), "c02" + opt, opt=opt)
 
         def one(fname, inputs, outs):
@@ -30,8 +34,10 @@ def run(tier):
                 r = run_shim(mod, fname, inputs, outs)
             except Unsupported as e:
                 raise AnalysisBroken("%s (%s): outside the straight-line algebraic fragment: %s" % (fname, opt, e))
-            if len(r) != 1:
-                raise AnalysisBroken("%s: %d paths, expected straight-line code" % (fname, len(r)))
+            try:
+                r = [spz.select(fname, r)]
+            except Unsupported as e:
+                raise AnalysisBroken("%s (%s): %s" % (fname, opt, e))
             rep.count("shims interpreted (%s)" % opt)
             for v in r[0][1]:
                 if any(x is None for x in v):
@@ -58,112 +64,113 @@ def run(tier):
                 rep.ok("%s<%d>: %s (%d components, %s)" % (name, N, what, len(got), opt), sample=(N == 3 and opt == "-O2"))
             else:
                 i, x, y = d
-                rep.fail(key, "%s<%d> component %d is  %r  but the definition (%s) gives  %r" % (name, N, i, x, what, y),
+                rep.fail(key, "%s<%d> component %d is  %r  but the definition (%s) gives  %r%s" % (name, N, i, x, what, y, sdesc),
                          component=i, optimisation=opt)
         half = Fraction(1, 2)
-        for N in (1, 2, 3):
-            ns, nt = SSZ[N], TSZ[N]
-            a, b = syms("a", nt), syms("b", nt)
-            A, B = tensor_matrix(a, N), tensor_matrix(b, N)
-            s = syms("s", ns)
-            S = stensor_matrix(s, N)
-            I3 = ident()
-            check("det(tensor)", N, one("verif_tdet_%d" % N, [a], [1]), [det3(A)], "det T")
-            inv = one("verif_tinvert_%d" % N, [a], [nt])
-            check("invert(tensor)", N, flat(matmul(tensor_matrix(inv, N), A)), flat(I3), "T^-1 . T = I")
-            check("transpose(tensor)", N, one("verif_ttranspose_%d" % N, [a], [nt]), matrix_tensor(transpose(A), N), "T^t")
-            check("tensor*tensor", N, one("verif_tprod_%d" % N, [a, b], [nt]), matrix_tensor(matmul(A, B), N), "A.B")
-            check("trace(tensor)", N, one("verif_ttrace_%d" % N, [a], [1]), [trace3(A)], "tr T")
-            sy = one("verif_syme_%d" % N, [a], [ns])
-            check("syme", N, sy, matrix_stensor(A, N), "(T+T^t)/2 in Mandel form")
-            us = one("verif_unsyme_%d" % N, [s], [nt])
-            check("unsyme", N, us, matrix_tensor(S, N), "matrix of the Mandel vector")
-            check("syme(unsyme(s)) = s", N, one("verif_syme_%d" % N, [us], [ns]), s, "round trip")
-            FtF = matmul(transpose(A), A)
-            FFt = matmul(A, transpose(A))
-            check("computeRightCauchyGreenTensor", N, one("verif_rcg_%d" % N, [a], [ns]), matrix_stensor(FtF, N), "F^t F")
-            check("computeLeftCauchyGreenTensor", N, one("verif_lcg_%d" % N, [a], [ns]), matrix_stensor(FFt, N), "F F^t")
-            check("computeGreenLagrangeTensor", N, one("verif_egl_%d" % N, [a], [ns]),
-                  matrix_stensor(mscale(madd(FtF, I3, 1, -1), half), N), "(F^t F - I)/2")
-            pf = matrix_stensor(matmul(matmul(A, S), transpose(A)), N)
-            check("push_forward", N, one("verif_pushforward_%d" % N, [s, a], [ns]), pf, "F S F^t")
-            check("pushForward", N, one("verif_pushForward2_%d" % N, [s, a], [ns]), pf, "F S F^t")
-            # stress conversions (det F kept as a factor)
-            J = det3(A)
-            pk2 = one("verif_cauchy2pk2_%d" % N, [s, a], [ns])
-            pk2n, pk2d = clear_denominators(pk2)
-            check("convertCauchyStressToSecondPiolaKirchhoffStress", N,
-                  flat(matmul(matmul(A, stensor_matrix(pk2n, N)), transpose(A))), flat(mscale(S, J * pk2d)), "F S F^t = J sigma")
-            sg = one("verif_pk22cauchy_%d" % N, [s, a], [ns])
-            check("convertSecondPiolaKirchhoffStressToCauchyStress", N,
-                  flat(mscale(stensor_matrix(sg, N), J)), flat(matmul(matmul(A, S), transpose(A))), "J sigma = F S F^t")
-            pk1 = one("verif_cauchy2pk1_%d" % N, [s, a], [nt])
-            check("convertCauchyStressToFirstPiolaKirchhoffStress", N,
-                  flat(matmul(tensor_matrix(pk1, N), transpose(A))), flat(mscale(S, J)), "P F^t = J sigma")
-            # PK1 -> Cauchy is only defined on admissible P (P F^t symmetric): checked as the inverse of Cauchy -> PK1
-            sg1 = one("verif_pk12cauchy_%d" % N, [pk1, a], [ns])
-            check("convertFirstPiolaKirchhoffStressToCauchyStress o convertCauchyStressToFirstPiolaKirchhoffStress", N,
-                  sg1, s, "identity on symmetric stresses")
-            check("PK2 -> Cauchy -> PK2 = id", N,
-                  [x * J for x in one("verif_cauchy2pk2_%d" % N, [[x for x in sg], a], [ns])], [x * J for x in s], "round trip")
-            # change of basis (tensor)
-            if N > 1:
-                r = syms("r", 9)
-                R = [r[0:3], r[3:6], r[6:9]]
-                if N == 2:
-                    for (i, j) in ((0, 2), (1, 2), (2, 0), (2, 1)):
-                        R[i][j] = Rat(0)
-                    R[2][2] = Rat(1)
-                rin = flat(R)
-                cb = one("verif_tchangebasis_%d" % N, [a, rin], [nt])
-                w1 = matrix_tensor(matmul(matmul(transpose(R), A), R), N)
-                w2 = matrix_tensor(matmul(matmul(R, A), transpose(R)), N)
-                m1, m2 = eq_list(cb, w1), eq_list(cb, w2)
-                conv = "Rt.M.R" if m1 and not m2 else ("R.M.Rt" if m2 and not m1 else "none/both")
-                if conv == CHANGE_BASIS_CONVENTION:
-                    rep.ok("change_basis(tensor<%d>, r) = %s (%s)" % (N, conv, opt))
-                else:
-                    rep.fail("IDENTITY@change_basis(tensor)<%d>" % N, "matches %s, expected %s" % (conv, CHANGE_BASIS_CONVENTION))
-            # fourth order projectors
-            Iv = [Rat(1)] * 3 + [Rat(0)] * (ns - 3)
-            Ids = [[Rat(1 if i == j else 0) for j in range(ns)] for i in range(ns)]
-            IxI = [[Iv[i] * Iv[j] for j in range(ns)] for i in range(ns)]
-            Jm = mscale(IxI, Fraction(1, 3))
-            Km = madd(Ids, Jm, 1, -1)
-            gId = one("verif_ssId_%d" % N, [], [ns * ns])
-            gIxI = one("verif_ssIxI_%d" % N, [], [ns * ns])
-            gJ = one("verif_ssJ_%d" % N, [], [ns * ns])
-            gK = one("verif_ssK_%d" % N, [], [ns * ns])
-            gM = one("verif_ssM_%d" % N, [], [ns * ns])
-            check("st2tost2::Id", N, gId, flat(Ids), "symmetric identity = identity matrix in the Mandel basis")
-            check("st2tost2::IxI", N, gIxI, flat(IxI), "I (x) I")
-            check("st2tost2::J", N, gJ, flat(Jm), "I (x) I / 3")
-            check("st2tost2::K", N, gK, flat(Km), "Id - J")
-            check("st2tost2::M", N, gM, flat(mscale(Km, Fraction(3, 2))), "3/2 K")
-            check("J*J = J", N, one("verif_ssprod_%d" % N, [gJ, gJ], [ns * ns]), gJ, "projector")
-            check("K*K = K", N, one("verif_ssprod_%d" % N, [gK, gK], [ns * ns]), gK, "projector")
-            check("J*K = 0", N, one("verif_ssprod_%d" % N, [gJ, gK], [ns * ns]), [Rat(0)] * (ns * ns), "orthogonal projectors")
-            Idt = [[Rat(1 if i == j else 0) for j in range(nt)] for i in range(nt)]
-            Ivt = [Rat(1)] * 3 + [Rat(0)] * (nt - 3)
-            IxIt = [[Ivt[i] * Ivt[j] for j in range(nt)] for i in range(nt)]
-            check("t2tot2::Id", N, one("verif_ttId_%d" % N, [], [nt * nt]), flat(Idt), "identity on 9-vectors")
-            check("t2tot2::IxI", N, one("verif_ttIxI_%d" % N, [], [nt * nt]), flat(IxIt), "I (x) I")
-            check("t2tot2::K", N, one("verif_ttK_%d" % N, [], [nt * nt]), flat(madd(Idt, mscale(IxIt, Fraction(1, 3)), 1, -1)), "Id - IxI/3")
-            # fourth order products
-            c4, d4 = syms("c", ns * ns), syms("d", ns * ns)
-            C4 = [c4[i * ns:(i + 1) * ns] for i in range(ns)]
-            D4 = [d4[i * ns:(i + 1) * ns] for i in range(ns)]
-            check("st2tost2*st2tost2", N, one("verif_ssprod_%d" % N, [c4, d4], [ns * ns]), flat(matmul(C4, D4)), "C_ijkl D_klmn")
-            check("st2tost2*stensor", N, one("verif_ssapply_%d" % N, [c4, s], [ns]),
-                  [sum((C4[i][j] * s[j] for j in range(ns)), Rat(0)) for i in range(ns)], "C_ijkl s_kl")
-            check("transpose(st2tost2)", N, one("verif_sstranspose_%d" % N, [c4], [ns * ns]), flat(transpose(C4)), "C_klij")
-            if N < 3 or tier == "thorough" or True:
-                e4, f4 = syms("e", nt * nt), syms("f", nt * nt)
-                E4 = [e4[i * nt:(i + 1) * nt] for i in range(nt)]
-                F4 = [f4[i * nt:(i + 1) * nt] for i in range(nt)]
-                check("t2tot2*t2tot2", N, one("verif_ttprod_%d" % N, [e4, f4], [nt * nt]), flat(matmul(E4, F4)), "A_ijkl B_klmn")
-                check("t2tot2*tensor", N, one("verif_ttapply_%d" % N, [e4, a], [nt]),
-                      [sum((E4[i][j] * a[j] for j in range(nt)), Rat(0)) for i in range(nt)], "A_ijkl t_kl")
+        for sdesc in spz.passes():
+            for N in (1, 2, 3):
+                ns, nt = SSZ[N], TSZ[N]
+                a, b = syms("a", nt), syms("b", nt)
+                A, B = tensor_matrix(a, N), tensor_matrix(b, N)
+                s = syms("s", ns)
+                S = stensor_matrix(s, N)
+                I3 = ident()
+                check("det(tensor)", N, one("verif_tdet_%d" % N, [a], [1]), [det3(A)], "det T")
+                inv = one("verif_tinvert_%d" % N, [a], [nt])
+                check("invert(tensor)", N, flat(matmul(tensor_matrix(inv, N), A)), flat(I3), "T^-1 . T = I")
+                check("transpose(tensor)", N, one("verif_ttranspose_%d" % N, [a], [nt]), matrix_tensor(transpose(A), N), "T^t")
+                check("tensor*tensor", N, one("verif_tprod_%d" % N, [a, b], [nt]), matrix_tensor(matmul(A, B), N), "A.B")
+                check("trace(tensor)", N, one("verif_ttrace_%d" % N, [a], [1]), [trace3(A)], "tr T")
+                sy = one("verif_syme_%d" % N, [a], [ns])
+                check("syme", N, sy, matrix_stensor(A, N), "(T+T^t)/2 in Mandel form")
+                us = one("verif_unsyme_%d" % N, [s], [nt])
+                check("unsyme", N, us, matrix_tensor(S, N), "matrix of the Mandel vector")
+                check("syme(unsyme(s)) = s", N, one("verif_syme_%d" % N, [us], [ns]), s, "round trip")
+                FtF = matmul(transpose(A), A)
+                FFt = matmul(A, transpose(A))
+                check("computeRightCauchyGreenTensor", N, one("verif_rcg_%d" % N, [a], [ns]), matrix_stensor(FtF, N), "F^t F")
+                check("computeLeftCauchyGreenTensor", N, one("verif_lcg_%d" % N, [a], [ns]), matrix_stensor(FFt, N), "F F^t")
+                check("computeGreenLagrangeTensor", N, one("verif_egl_%d" % N, [a], [ns]),
+                      matrix_stensor(mscale(madd(FtF, I3, 1, -1), half), N), "(F^t F - I)/2")
+                pf = matrix_stensor(matmul(matmul(A, S), transpose(A)), N)
+                check("push_forward", N, one("verif_pushforward_%d" % N, [s, a], [ns]), pf, "F S F^t")
+                check("pushForward", N, one("verif_pushForward2_%d" % N, [s, a], [ns]), pf, "F S F^t")
+                # stress conversions (det F kept as a factor)
+                J = det3(A)
+                pk2 = one("verif_cauchy2pk2_%d" % N, [s, a], [ns])
+                pk2n, pk2d = clear_denominators(pk2)
+                check("convertCauchyStressToSecondPiolaKirchhoffStress", N,
+                      flat(matmul(matmul(A, stensor_matrix(pk2n, N)), transpose(A))), flat(mscale(S, J * pk2d)), "F S F^t = J sigma")
+                sg = one("verif_pk22cauchy_%d" % N, [s, a], [ns])
+                check("convertSecondPiolaKirchhoffStressToCauchyStress", N,
+                      flat(mscale(stensor_matrix(sg, N), J)), flat(matmul(matmul(A, S), transpose(A))), "J sigma = F S F^t")
+                pk1 = one("verif_cauchy2pk1_%d" % N, [s, a], [nt])
+                check("convertCauchyStressToFirstPiolaKirchhoffStress", N,
+                      flat(matmul(tensor_matrix(pk1, N), transpose(A))), flat(mscale(S, J)), "P F^t = J sigma")
+                # PK1 -> Cauchy is only defined on admissible P (P F^t symmetric): checked as the inverse of Cauchy -> PK1
+                sg1 = one("verif_pk12cauchy_%d" % N, [pk1, a], [ns])
+                check("convertFirstPiolaKirchhoffStressToCauchyStress o convertCauchyStressToFirstPiolaKirchhoffStress", N,
+                      sg1, s, "identity on symmetric stresses")
+                check("PK2 -> Cauchy -> PK2 = id", N,
+                      [x * J for x in one("verif_cauchy2pk2_%d" % N, [[x for x in sg], a], [ns])], [x * J for x in s], "round trip")
+                # change of basis (tensor)
+                if N > 1:
+                    r = syms("r", 9)
+                    R = [r[0:3], r[3:6], r[6:9]]
+                    if N == 2:
+                        for (i, j) in ((0, 2), (1, 2), (2, 0), (2, 1)):
+                            R[i][j] = Rat(0)
+                        R[2][2] = Rat(1)
+                    rin = flat(R)
+                    cb = one("verif_tchangebasis_%d" % N, [a, rin], [nt])
+                    w1 = matrix_tensor(matmul(matmul(transpose(R), A), R), N)
+                    w2 = matrix_tensor(matmul(matmul(R, A), transpose(R)), N)
+                    m1, m2 = eq_list(cb, w1), eq_list(cb, w2)
+                    conv = "Rt.M.R" if m1 and not m2 else ("R.M.Rt" if m2 and not m1 else "none/both")
+                    if conv == CHANGE_BASIS_CONVENTION:
+                        rep.ok("change_basis(tensor<%d>, r) = %s (%s)" % (N, conv, opt))
+                    else:
+                        rep.fail("IDENTITY@change_basis(tensor)<%d>" % N, "matches %s, expected %s" % (conv, CHANGE_BASIS_CONVENTION))
+                # fourth order projectors
+                Iv = [Rat(1)] * 3 + [Rat(0)] * (ns - 3)
+                Ids = [[Rat(1 if i == j else 0) for j in range(ns)] for i in range(ns)]
+                IxI = [[Iv[i] * Iv[j] for j in range(ns)] for i in range(ns)]
+                Jm = mscale(IxI, Fraction(1, 3))
+                Km = madd(Ids, Jm, 1, -1)
+                gId = one("verif_ssId_%d" % N, [], [ns * ns])
+                gIxI = one("verif_ssIxI_%d" % N, [], [ns * ns])
+                gJ = one("verif_ssJ_%d" % N, [], [ns * ns])
+                gK = one("verif_ssK_%d" % N, [], [ns * ns])
+                gM = one("verif_ssM_%d" % N, [], [ns * ns])
+                check("st2tost2::Id", N, gId, flat(Ids), "symmetric identity = identity matrix in the Mandel basis")
+                check("st2tost2::IxI", N, gIxI, flat(IxI), "I (x) I")
+                check("st2tost2::J", N, gJ, flat(Jm), "I (x) I / 3")
+                check("st2tost2::K", N, gK, flat(Km), "Id - J")
+                check("st2tost2::M", N, gM, flat(mscale(Km, Fraction(3, 2))), "3/2 K")
+                check("J*J = J", N, one("verif_ssprod_%d" % N, [gJ, gJ], [ns * ns]), gJ, "projector")
+                check("K*K = K", N, one("verif_ssprod_%d" % N, [gK, gK], [ns * ns]), gK, "projector")
+                check("J*K = 0", N, one("verif_ssprod_%d" % N, [gJ, gK], [ns * ns]), [Rat(0)] * (ns * ns), "orthogonal projectors")
+                Idt = [[Rat(1 if i == j else 0) for j in range(nt)] for i in range(nt)]
+                Ivt = [Rat(1)] * 3 + [Rat(0)] * (nt - 3)
+                IxIt = [[Ivt[i] * Ivt[j] for j in range(nt)] for i in range(nt)]
+                check("t2tot2::Id", N, one("verif_ttId_%d" % N, [], [nt * nt]), flat(Idt), "identity on 9-vectors")
+                check("t2tot2::IxI", N, one("verif_ttIxI_%d" % N, [], [nt * nt]), flat(IxIt), "I (x) I")
+                check("t2tot2::K", N, one("verif_ttK_%d" % N, [], [nt * nt]), flat(madd(Idt, mscale(IxIt, Fraction(1, 3)), 1, -1)), "Id - IxI/3")
+                # fourth order products
+                c4, d4 = syms("c", ns * ns), syms("d", ns * ns)
+                C4 = [c4[i * ns:(i + 1) * ns] for i in range(ns)]
+                D4 = [d4[i * ns:(i + 1) * ns] for i in range(ns)]
+                check("st2tost2*st2tost2", N, one("verif_ssprod_%d" % N, [c4, d4], [ns * ns]), flat(matmul(C4, D4)), "C_ijkl D_klmn")
+                check("st2tost2*stensor", N, one("verif_ssapply_%d" % N, [c4, s], [ns]),
+                      [sum((C4[i][j] * s[j] for j in range(ns)), Rat(0)) for i in range(ns)], "C_ijkl s_kl")
+                check("transpose(st2tost2)", N, one("verif_sstranspose_%d" % N, [c4], [ns * ns]), flat(transpose(C4)), "C_klij")
+                if N < 3 or tier == "thorough" or True:
+                    e4, f4 = syms("e", nt * nt), syms("f", nt * nt)
+                    E4 = [e4[i * nt:(i + 1) * nt] for i in range(nt)]
+                    F4 = [f4[i * nt:(i + 1) * nt] for i in range(nt)]
+                    check("t2tot2*t2tot2", N, one("verif_ttprod_%d" % N, [e4, f4], [nt * nt]), flat(matmul(E4, F4)), "A_ijkl B_klmn")
+                    check("t2tot2*tensor", N, one("verif_ttapply_%d" % N, [e4, a], [nt]),
+                          [sum((E4[i][j] * a[j] for j in range(nt)), Rat(0)) for i in range(nt)], "A_ijkl t_kl")
     rep.floor("shims interpreted (-O2)", 100)
     rep.assumptions += ["exact real arithmetic: nothing is decided about rounding or ill-conditioned inputs",
                         "storage conventions: tensor = (xx,yy,zz,xy,yx,xz,zx,yz,zy); fourth-order tensors are matrices in the "
